@@ -36,7 +36,7 @@ Qed.
 Lemma one_step cfg s r e : Inv s -> Fresh s -> Sim s r -> RWf r -> conformant r e = true ->
   exists s' o, handle cfg s e = Ok (s', o) /\ Inv s' /\ Fresh s' /\ Sim s' (ref_step r e) /\ RWf (ref_step r e).
 Proof.
-  intros I F S W Hc. unfold conformant in Hc. apply andb_prop in Hc. destruct Hc as [_ Hok].
+  intros I F S W Hok. unfold conformant in Hok.
   destruct (step_cmd cfg (handle_tags s e) (ref_tag r e) e (tag_inv s e I) (tag_fresh s e F) (tag_sim s r e S) (rwf_tag r e W) Hok)
     as (s' & o & Hh & F' & S').
   exists s', o. rewrite handle_split. split; [exact Hh|].
@@ -203,9 +203,9 @@ Proof. vm_compute. repeat split; reflexivity. Qed.
 Example ex_mode_history : conformant_history (firstn 9 ex_history ++ [nth 9 ex_history (ex_srv "" [])]) = true.
 Proof. vm_compute. reflexivity. Qed.
 
-(* ---- why `conformant` carries its consistency clauses: four histories a server may well
-   send, each conformant up to its last message, after which the implementation's state is
-   NOT the literal reading of the history (see notes/design/C04.md, assumptions A1-A4) ---- *)
+(* ---- four messages the implementation used to misread (repaired in /repo: 1202858, b2cf3ea,
+   5501026, 0dc8f0c): they are conformant, and the implementation's state is their literal
+   reading ---- *)
 
 Definition ex_cfg04 := mkConfig (bs "me") (bs "user").
 Definition ex_tagged (e : event) (a : string) : event := mkEvent (e_src e) (Some (bs a)) (e_cmd e) (e_params e).
@@ -213,40 +213,40 @@ Definition user_view (r : ref) (n : string) := option_map (fun u => (ru_ident u,
 Definition run_abs (h : list event) : option ref :=
   match run ex_cfg04 state_init h with Ok (s, _) => Some (abs s) | Panic => None end.
 
-(* A1: a user known from a plain NAMES line joins another channel: the prefix of the JOIN is not recorded *)
-Definition beyond_A1 : list event := [
+(* a user known from a plain NAMES line joins another channel: the prefix of the JOIN is recorded *)
+Definition literal_A1 : list event := [
   ex_srv "001" ["me"; "Welcome"]; ex_usr "me" "JOIN" ["#a"]; ex_srv "353" ["me"; "="; "#a"; "me alice"];
   ex_usr "me" "JOIN" ["#b"]; ex_srv "353" ["me"; "="; "#b"; "me"]; ex_usr "alice" "JOIN" ["#b"] ].
-Example beyond_A1_deviates :
-  conformant_history (removelast beyond_A1) = true /\ conformant_history beyond_A1 = false /\
-  option_map (fun r => user_view r "alice") (run_abs beyond_A1) = Some (Some ([], [], [])) /\
-  user_view (told_run beyond_A1) "alice" = Some (bs "~u", bs "h.example", []).
+Example literal_A1_followed :
+  conformant_history literal_A1 = true /\
+  user_view (told_run literal_A1) "alice" = Some (bs "~u", bs "h.example", []) /\
+  option_map (fun r => user_view r "alice") (run_abs literal_A1) = Some (user_view (told_run literal_A1) "alice").
 Proof. vm_compute. repeat split; reflexivity. Qed.
 
-(* A2: extended-join shows "*" for a user known as logged in: the account is kept *)
-Definition beyond_A2 : list event := [
+(* extended-join shows "*" for a user known as logged in: the account is cleared *)
+Definition literal_A2 : list event := [
   ex_srv "001" ["me"; "Welcome"]; ex_usr "me" "JOIN" ["#a"]; ex_usr "me" "JOIN" ["#b"];
   ex_usr "alice" "JOIN" ["#a"; "acct"; "Alice"]; ex_usr "alice" "JOIN" ["#b"; "*"; "Alice"] ].
-Example beyond_A2_deviates :
-  conformant_history (removelast beyond_A2) = true /\ conformant_history beyond_A2 = false /\
-  option_map (fun r => user_view r "alice") (run_abs beyond_A2) = Some (Some (bs "~u", bs "h.example", bs "acct")) /\
-  user_view (told_run beyond_A2) "alice" = Some (bs "~u", bs "h.example", []).
+Example literal_A2_followed :
+  conformant_history literal_A2 = true /\
+  user_view (told_run literal_A2) "alice" = Some (bs "~u", bs "h.example", []) /\
+  option_map (fun r => user_view r "alice") (run_abs literal_A2) = Some (user_view (told_run literal_A2) "alice").
 Proof. vm_compute. repeat split; reflexivity. Qed.
 
-(* A3: an account tag on the JOIN of somebody new, without extended-join: the account is lost *)
-Definition beyond_A3 : list event := [
+(* an account tag on the JOIN of somebody new, without extended-join: the account is recorded *)
+Definition literal_A3 : list event := [
   ex_srv "001" ["me"; "Welcome"]; ex_usr "me" "JOIN" ["#a"]; ex_tagged (ex_usr "alice" "JOIN" ["#a"]) "acct" ].
-Example beyond_A3_deviates :
-  conformant_history (removelast beyond_A3) = true /\ conformant_history beyond_A3 = false /\
-  option_map (fun r => user_view r "alice") (run_abs beyond_A3) = Some (Some (bs "~u", bs "h.example", [])) /\
-  user_view (told_run beyond_A3) "alice" = Some (bs "~u", bs "h.example", bs "acct").
+Example literal_A3_followed :
+  conformant_history literal_A3 = true /\
+  user_view (told_run literal_A3) "alice" = Some (bs "~u", bs "h.example", bs "acct") /\
+  option_map (fun r => user_view r "alice") (run_abs literal_A3) = Some (user_view (told_run literal_A3) "alice").
 Proof. vm_compute. repeat split; reflexivity. Qed.
 
-(* A4: an ISUPPORT token with an empty value is stored under the key "SILENCE=" *)
-Definition beyond_A4 : list event := [
+(* an ISUPPORT token with an empty value means the key with the empty value *)
+Definition literal_A4 : list event := [
   ex_srv "001" ["me"; "Welcome"]; ex_srv "005" ["me"; "SILENCE="; "NETWORK=Test"; "are supported by this server"] ].
-Example beyond_A4_deviates :
-  conformant_history (removelast beyond_A4) = true /\ conformant_history beyond_A4 = false /\
-  option_map (fun r => (v_option r (bs "SILENCE"), v_option r (bs "SILENCE="))) (run_abs beyond_A4) = Some (None, Some []) /\
-  (v_option (told_run beyond_A4) (bs "SILENCE"), v_option (told_run beyond_A4) (bs "SILENCE=")) = (Some [], None).
+Example literal_A4_followed :
+  conformant_history literal_A4 = true /\
+  (v_option (told_run literal_A4) (bs "SILENCE"), v_option (told_run literal_A4) (bs "SILENCE=")) = (Some [], None) /\
+  option_map (fun r => (v_option r (bs "SILENCE"), v_option r (bs "SILENCE="))) (run_abs literal_A4) = Some (Some [], None).
 Proof. vm_compute. repeat split; reflexivity. Qed.
